@@ -157,14 +157,14 @@ def pipeline(ctx):
         d = json.loads(l); d["random"] = 1
         scns.append(d)
     # "at any pace": the same streams served by the real Session::manage over a socket, one message every `gap_ms` milliseconds, with the
-    # session's deadline (OHKAMI_KEEPALIVE_TIMEOUT) at 1 s -- a stream that is over well before it, and one that outlives it
-    for k, (pace, gap) in enumerate([("within-the-session-deadline", 40), ("beyond-the-session-deadline", 450), ("within-the-session-deadline", 5), ("beyond-the-session-deadline", 700)]):
+    # session's deadline (OHKAMI_KEEPALIVE_TIMEOUT) at 3 s -- streams that are over long before it (<= 0.2 s), and one that outlives it (4.8 s)
+    for k, (pace, gap) in enumerate([("within-the-session-deadline", 40), ("beyond-the-session-deadline", 1200), ("within-the-session-deadline", 5)]):
         scns.append({"script": ["P"] * 4, "msgs": [["x"], ["y", "LF", "x"], ["u"], ["x", "SP", "y"]] if k % 2 == 0 else [["n"], ["x"], ["y"], ["u", "CR", "x"]],
                      "via": "session", "pace": pace, "gap_ms": gap, "hist": [], "pol": {"delay": [], "spur": []}, "wmode": 0, "seed": ctx.seed + k})
     for n, d in enumerate(scns):
         d["id"] = n
     inp = ctx.write_ndjson("scenarios.ndjson", scns)
-    obs = ctx.vh("sse", inp, ctx.path("observations.ndjson"), jobs=12, timeout_ms=20000)
+    obs = ctx.vh("sse", inp, ctx.path("observations.ndjson"), jobs=12, timeout_ms=40000)
     ctx.evaluations += len(obs)
     ctx.extra["scenarios_from_tlc"] = n_tlc
     ctx.extra["scenarios_random"] = len(scns) - n_tlc
